@@ -24,6 +24,12 @@ CHECKS = {
     'C18': ('3/C18', 'exhaustive enumeration of all strings over the format alphabet up to length 6 (thorough 7/8) and of all rankings/datasets of the small scope through write/parse',
             'Every string over the 9-character format alphabet up to length 6 goes through the three parser entry points (ValueError or a result, watchdog for hangs); every ranking of SWO(4) in 30 textual renderings and every dataset of DS(3,2) through a fresh file must come back equal and structurally identical.',
             'element alphabet as in the statement: non-negative ints; delimiter-free non-int-like strings'),
+    'C16': ('3/C16', 'explicit-state BFS to closure over the real Dataset mutators (histories replayed on fresh objects, canonical-state dedup) with a list-of-sets reference and view invariants in every state',
+            'From every dataset of DS(3,2) and DS(2,3) under five label sets (incl. int/str mixes whose homogenisation flips after a removal) the search applies every remove_elements(S), six presence-rate thresholds and remove_empty_rankings until no new state appears; in every state all Ranking/Dataset views, the id maps in both directions, the matrices, unification and both projection routes for every kept set are compared with the reference.',
+            'small-scope hypothesis; removal of non-members not in the alphabet'),
+    'C20': ('3/C20', 'explicit-state BFS to closure over the real Markov step functions with the chooser answering every random draw; exhaustive enumeration of all random walks / shuffle outcomes of the public generators on a bounded grid',
+            'The Markov chain is explored as a transition system for n<=6 (thorough 7) in both modes: all 9366/4683 reachable states at n=6, every (element, move) transition, dense-bucket invariant in every state, and every reachable state converted to buckets through generate_rankings; the public generators are run under every random walk for (n<=3,m<=2,steps<=2), (n<=2,steps<=4) etc. and every shuffle outcome.',
+            'random draws reach the library only through the random module (routed to the chooser; anything else raises); n=0/m=0 not claimed'),
 }
 
 PENDING = {}
